@@ -22,7 +22,7 @@ constant max_value <= 1, Objective.inclusive defaults to True, and the validity 
 `< max` / `>= min` / `> min` per the inclusive flag, applied to the choices; (V5) the loop-bound operator
 table maps operators to bounds coherently (max <= {==,<=,<}, min <= {>=,>,==}, exclusive <= {<,>}); (V6)
 check_loops keeps rows with n <= limit (or stricter) and empties the table when a scalar count exceeds
-the limit. (V3, excess tolerance never returned unvalidated, is C14-A3.) NOT decided: that reservation
+the limit. (V7) the model rejects a mapping that uses more spatial instances than the fanout or more bits than a memory holds. (V3, excess tolerance never returned unvalidated, is C14-A3.) NOT decided: that reservation
 columns hold the right numbers (C06) and LoopTree well-formedness.
 """
 
@@ -217,7 +217,48 @@ def _v6(ctx):
     ctx.floor(R, 4)
 
 
+def _v7(ctx):
+    R = "C03-V7"
+    ctx.doc(R, "the model rejects oversubscription: using more spatial instances than the fanout, or more bits than a tracked memory holds, raises InvalidMappingError (1-sided: a stricter test is accepted)")
+    RMF = "accelforge/model/run_model.py"
+    rm = ctx.func(RMF, "run_model", R)
+    cfg = ctx.cfg(rm)
+    reach = cfg.reachable()
+    raises = [n for n in cfg.nodes if n.kind == "stmt" and isinstance(n.ast, ast.Raise) and n.ast.exc is not None and "InvalidMappingError" in norm(n.ast.exc) and n in reach]
+    ctx.require(len(raises) <= 2, R, f"InvalidMappingError raises found: {len(raises)}")
+    N = Normaliser()
+    want = {"used": ("s.fanout", "spatial instances vs fanout"), "running_total": ("size", "bits used vs memory size")}
+    seen = set()
+    for r in raises:
+        tests = [h.ast.test for h, lab in cfg.control_conditions(r) if h.kind == "if" and lab == "true" and r.ast in h.ast.body]
+        ctx.require(len(tests) == 1, R, "guard of the raise")
+        cmps = [x for x in ast.walk(tests[0]) if isinstance(x, ast.Compare) and len(x.ops) == 1 and isinstance(x.ops[0], (ast.Gt, ast.GtE, ast.Lt, ast.LtE))]
+        ctx.require(len(cmps) == 1, R, f"comparison in `{norm(tests[0])}`")
+        c = cmps[0]
+        l, rr, op = norm(c.left), c.comparators[0], c.ops[0]
+        if isinstance(op, (ast.Lt, ast.LtE)):
+            l, rr = norm(c.comparators[0]), c.left
+        if l not in want:
+            ctx.bad(R, rm, c, f"oversubscription test `{norm(c)}` does not compare the used amount with the capacity")
+            continue
+        seen.add(l)
+        cap, what = want[l]
+        ok = N.poly(rr) == N.poly(ast.parse(cap, mode="eval").body)
+        ctx.check(ok, R, rm, c, f"{what}: the mapping is rejected only when `{norm(c)}`; anything looser than `{l} > {cap}` lets an over-capacity mapping be evaluated as valid", f"{what}: rejected when {norm(c)}")
+    for k in set(want) - seen:
+        ctx.bad(R, rm, rm.node, f"no InvalidMappingError for {want[k][1]}")
+    # the memory check covers every tracked memory and sums all levels
+    loops = [n for n in cfg.nodes if n.kind == "for" and norm(n.ast.iter) == "total_occupancy.items()"]
+    ok = bool(loops) and any(cfg.dominates(loops[0], r) for r in raises)
+    ctx.check(ok, R, rm, loops[0].ast.iter if loops else rm.node, "the capacity check does not run over every memory with an occupancy", "every memory with an occupancy is checked")
+    acc = [s for s in rm.stmts() if isinstance(s, ast.AugAssign) and norm(s.target) == "running_total"]
+    ok = len(acc) == 1 and isinstance(acc[0].op, ast.Add) and norm(acc[0].value) == "occupancies[n_loop]"
+    ctx.check(ok, R, rm, acc[0] if acc else rm.node, "the running total does not add the occupancy of every loop level", "running total sums all levels")
+    ctx.floor(R, 4)
+
+
 def check(ctx):
+    _v7(ctx)
     _v1(ctx)
     _v2(ctx)
     _v4(ctx)
@@ -236,6 +277,8 @@ VARIANTS = [
     {"kind": "F", "name": "limit-plus-one", "rule": "C03-V6", "edits": [(MTS, "            choices_enumerated = choices_enumerated[n <= limit]", "            choices_enumerated = choices_enumerated[n <= limit + 1]")]},
     {"kind": "F", "name": "exclusive-mask-inclusive", "rule": "C03-V4", "edits": [(MTS, "                            valid = result < objective.max_value", "                            valid = result <= objective.max_value")]},
     {"kind": "F", "name": "geq-in-max-list", "rule": "C03-V5", "edits": [(MTS, '        if operator in ["==", "<=", "<"]:\n            max_value = c.constraint.value', '        if operator in ["==", "<=", "<", ">="]:\n            max_value = c.constraint.value')]},
+    {"kind": "F", "name": "model-capacity-check-loosened", "rule": "C03-V7", "edits": [("accelforge/model/run_model.py", "        if isinstance(running_total, Number) and running_total > size:", "        if isinstance(running_total, Number) and running_total > 2 * size:")]},
+    {"kind": "F", "name": "model-fanout-check-removed", "rule": "C03-V7", "edits": [("accelforge/model/run_model.py", "                if isinstance(used, Number) and used > s.fanout:\n                    raise InvalidMappingError(", "                if False:\n                    raise InvalidMappingError(")]},
     {"kind": "S", "name": "remove-only-merge-filter", "edits": [(PD, _MERGE_LC, "")]},
     {"kind": "S", "name": "stricter-lt", "edits": [(MTS, "            choices_enumerated = choices_enumerated[n <= limit]", "            choices_enumerated = choices_enumerated[n < limit]")]},
     {"kind": "S", "name": "usage-max-below-one", "edits": [(MTS, "                only_care_if_valid=only_care_if_valid,\n                max_value=1,", "                only_care_if_valid=only_care_if_valid,\n                max_value=0.999,")]},
